@@ -171,7 +171,9 @@ class Generator(Curve, Point):
         u1 = val * s_inverse
         u2 = r * s_inverse
         point = u1 * self + u2 * self.Point(*public_pair)
-        v = point[0] % order  # type: ignore[operator]
+        if point[0] is None:
+            return False  # the point at infinity has no x coordinate: not a valid signature
+        v = point[0] % order
         return v == r
 
     def sign_with_recid(
